@@ -347,6 +347,19 @@ def archipelago(rng):
     return AMesh(_orient(faces, xyz), xyz, False, "archipelago")
 
 
+def with_orphans(m, rng, where=None):
+    """the same faces plus 1-3 nodes that no face uses (valence 0), inserted at the start, the middle or
+    the end of the node numbering (a cut-out that kept its parent's node arrays)"""
+    where = where or rng.choice(["start", "middle", "end"])
+    k = rng.randint(1, 3)
+    n = m.n_node
+    pos = {"start": 0, "middle": max(1, n // 2), "end": n}[where]
+    extra = np.array([_ll(rng.uniform(-170, 170), rng.uniform(-80, 80)) for _ in range(k)])
+    xyz = np.vstack([m.xyz[:pos], extra, m.xyz[pos:]])
+    ren = lambda v: v if v < pos else v + k
+    return AMesh([[ren(v) for v in f] for f in m.faces], xyz, False, m.kind + "+orphans@" + where)
+
+
 def random_rotation(rng):
     q = np.array([rng.gauss(0, 1) for _ in range(4)])
     q /= np.linalg.norm(q)
